@@ -67,6 +67,21 @@ def scenarios(ctx):
             continue
         steps = R.pool_setup_steps(rng, list(ws), history=False) + [{"op": "pick"} for _ in range(2 * W + 3)]
         out.append({"id": "huge-%d" % j, "cfg": {"subject": "rr", "table": j}, "steps": steps})
+    # (1e) a balancer with sticky sessions: requests routed by their affinity cookie are NOT selections and must not use up
+    #      a turn of the rotation; the selections in between (cookie-less requests, NextServer) stay exactly proportional
+    for j in range(30 if quick else 300):
+        ws = rng.choice([(3, 1), (3, 1, 0), (1, 2, 3), (5, 1, 1), (2, 4), (4, 1, 2, 0)]) if j % 2 == 0 else tuple(R.random_pool(rng, 4, 12))
+        keys = R.KEYS[:len(ws)]
+        steps = [{"op": "upsert", "k": k, "v": 0, "w": w} for k, w in zip(keys, ws)]
+        W = R.W_of(ws)
+        if W == 0 or W > 60:
+            continue
+        steps.append({"op": "serve", "cookie": "none", "mut": "none"})
+        for _ in range(3 * W + 3):
+            for _ in range(rng.choice([0, 1, 1, 2, 3])):
+                steps.append({"op": "serve", "cookie": rng.choice(["issued", "issued", "for:" + rng.choice(keys)]), "mut": "none"})
+            steps.append({"op": "serve", "cookie": "none", "mut": "none"} if rng.random() < 0.6 else {"op": "pick"})
+        out.append({"id": "sticky-%d" % j, "cfg": {"subject": "rr", "sticky": rng.choice(["raw", "hash", "aes"]), "table": j}, "steps": steps})
     # (2) seeded pools, large weights, 2W+k selections, through NextServer and through ServeHTTP
     n = 120 if quick else 1500
     wcap = 300 if quick else 3000
